@@ -362,6 +362,8 @@ func c11World(cf c11cfg) (*appx.World, appx.Genesis, []appx.Op) {
 		{Members: members, Threshold: uint64(cf.T), IndexPlus: 0, Act: 5},
 		{Members: members, Threshold: 0, IndexPlus: 1, Act: 5},
 		{Members: members, Threshold: uint64(cf.N + 1), IndexPlus: 1, Act: 5},
+		// equal to candidate 0 except for the threshold (votes for it must not be pooled with candidate 0's)
+		{Members: members, Threshold: uint64(cf.T%cf.N + 1), IndexPlus: 1, Act: 0},
 	}, SeenBlocks: []uint64{5, 3}}
 	g := appx.Genesis{Members: members, Threshold: uint64(cf.T)}
 	var ops []appx.Op
@@ -614,9 +616,13 @@ func c11() *report.Check {
 						}
 						cf, part, init := cf, part, init
 						var b *explore.BFS[c11node]
+						d := depth
+						if cf.N == 4 && !c.Thorough {
+							d = depth - 1 // quick: the largest universe one level shallower
+						}
 						b = &explore.BFS[c11node]{
 							Key:      func(n c11node) string { return appx.StateKey(n.a) + "|" + n.m.dump() },
-							MaxDepth: depth, Deadline: c.Deadline, KeepPaths: true,
+							MaxDepth: d, Deadline: c.Deadline, KeepPaths: true,
 							Expand: func(n c11node, d int, path []string, emit func(string, c11node)) {
 								for oi, o := range alphabet {
 									if d == 0 && oi%parts != part {
